@@ -207,19 +207,43 @@ def run_case(case):
   evals += 1
   if abs(e["total_cost"] - int(total_ref)) > 1:
     bad("total", "total_cost = %r, sum of all layer entries = %.3f" % (e["total_cost"], total_ref))
-  for name, setting in (("include_energy", config_public.config_settings["include_energy"]),
-                        ("all", {"default": ["inputs", "outputs", "parameters", "op_cost"]}),
-                        ("ops", {"default": ["op_cost"]})):
+  # cost settings: the stock one, plus the bounded lattice default x (no override | one class present in the report overridden
+  # by each override list | every class overridden by the empty list): an explicit empty list selects NOTHING for that class
+  classes = sorted({entry["class_name"] for ln, entry in e.items() if ln != "total_cost"})
+  allk = ["inputs", "outputs", "parameters", "op_cost"]
+  settings = [("include_energy", config_public.config_settings["include_energy"])]
+  for dn, dflt in (("all", allk), ("ops", ["op_cost"]), ("none", []), ("absent", None)):
+    base = {} if dflt is None else {"default": list(dflt)}
+    settings.append(("default=%s" % dn, dict(base)))
+    for cn in classes:
+      for on, ov in (("empty", []), ("inputs", ["inputs"]), ("par+op", ["parameters", "op_cost"])):
+        settings.append(("default=%s:class=%s" % (dn, on), dict(base, **{cn: list(ov)})))
+    settings.append(("default=%s:all-classes=empty" % dn, dict(base, **{cn: [] for cn in classes})))
+  for name, setting in settings:
     want = 0.0
+    prof = {}
     for ln, entry in e.items():
       if ln == "total_cost":
         continue
-      keys = setting.get(entry["class_name"], setting.get("default", []))
-      want += sum(entry["energy"][k] for k in keys)
+      if entry["class_name"] in setting:
+        keys = setting[entry["class_name"]]
+      else:
+        keys = setting.get("default", [])
+      prof[ln] = sum(entry["energy"][k] for k in keys)
+      want += prof[ln]
     got_sum = qt.extract_energy_sum(setting, e)
     evals += 1
     if got_sum != int(want):
-      bad("extract_energy_sum:" + name, "extract_energy_sum = %r, sum of the selected entries = %r" % (got_sum, int(want)))
+      bad("extract_energy_sum:" + name, "extract_energy_sum(%r) = %r, sum of the selected entries = %r" % (setting, got_sum, int(want)))
+    got_prof = qt.extract_energy_profile(setting, e)
+    evals += 1
+    for ln, w in prof.items():
+      gp = got_prof.get(ln)
+      if gp is None or abs(gp["total"] - w) > 1e-6 or gp["energy"] != e[ln]["energy"]:
+        bad("extract_energy_profile:" + name, "extract_energy_profile(%r)[%s] = %r, the selected entries sum to %r" % (setting, ln, gp, w))
+        break
+    if set(got_prof) != set(prof):
+      bad("extract_energy_profile:layers:" + name, "profile layers %r != report layers %r" % (sorted(got_prof), sorted(prof)))
   return {"evals": evals, "transitions": 1, "nontrivial": int(nonzero >= 2),
           "state": "b:%s:%s:%s:%s:%d" % (case["prog"], case["wmem"], case["amem"], case["io"], case["minsram"]),
           "digest": common.digest(repr(sorted((k, repr(v)) for k, v in e.items()))), "violations": viol, "traces": evals,
